@@ -70,6 +70,11 @@ def run(ctx) -> None:
     from . import c09
     ctx.rule("R05.7", "tee: a child with buffered items yields them without waiting for the lock (R09.2)")
     c09.lock_free_service(ctx, "R05.7")
+    from . import c16
+    ctx.rule("R05.8", "groupby: pulling an item and computing its key are one step (after a failed or cancelled key call the item "
+                      "is not left behind as if it had been keyed) (R16.3, shared)")
+    c16.publish_rule(ctx, c16.Names(ctx), "R05.8")
+    r05_9(ctx)
     ctx.floor("tools", 20)
     ctx.floor("pull_sites", 15)
     ctx.floor("short_circuit_cells", 6)
@@ -198,7 +203,7 @@ def r05_1(ctx, u, rid: str = "R05.1") -> None:
         ctx.ok(rid, u, f"no item is held back across a further pull ({len(pulls)} pull sites)")
 
 
-def r05_2(ctx, u) -> None:
+def r05_2(ctx, u, rid: str = "R05.2") -> None:
     cfg = cfg_of(u)
     pulls = pull_nodes(ctx, u)
     if not pulls:
@@ -233,10 +238,10 @@ def r05_2(ctx, u) -> None:
                 if c > 1:
                     bad += 1
                     site = [n for n, _l in path if s in ucalls.get(n, ())][-1]
-                    ctx.fail("R05.2", u, site, f"the user callable `{s.split(':')[-1]}` is invoked {c} times for one item "
+                    ctx.fail(rid, u, site, f"the user callable `{s.split(':')[-1]}` is invoked {c} times for one item "
                              f"(the stdlib invokes it once)", node=site)
     if not bad:
-        ctx.ok("R05.2", u, "each per-item callable runs at most once between consecutive pulls",
+        ctx.ok(rid, u, "each per-item callable runs at most once between consecutive pulls",
                callables=sorted({s.split(":")[-1] for v in ucalls.values() for s in v}))
 
 
@@ -266,6 +271,36 @@ def r05_3(ctx) -> None:
     ok = len(pulls) == 1 and len(loops) == 1 and pulls[0].in_region("loop", loops[0].ast) and not any(
         k == "loop" and a is not loops[0].ast for (k, a) in pulls[0].regions)
     ctx.check(ok, "R05.3", f, pulls[0] if pulls else "from_iters", "the initial fill pulls exactly one head per source")
+
+
+def r05_9(ctx, rid: str = "R05.9") -> None:
+    """merge calls ``key`` exactly where heapq.merge does: for the first head of every source and for
+    each refill while at least two sources are alive — the tail of the last source is passed
+    through without looking at it."""
+    ctx.rule(rid, "merge: the key-computing pull of a holder happens only in the initial fill and inside the "
+                      "`while <at least two holders>` loop; the last source's tail is yielded without calling key")
+    roles = c01.holder_roles(ctx)
+    puller = roles["puller"].node.name
+    fill = ctx.unit("heapq._KeyIter.from_iters")
+    mod = ctx.pkg.module("heapq")
+    for u in mod.units.values():
+        if u.is_overload() or u is roles["puller"] or u is fill:
+            continue
+        cfg = cfg_of(u)
+        for n in cfg.nodes:
+            if n.kind != "await" or n.tag or f".{puller}(" not in norm(n.ast):
+                continue
+            ctx.count("merge_refills")
+            ok = False
+            for (k, a) in n.regions:
+                if k == "loop" and isinstance(a, ast.While) and isinstance(a.test, ast.Compare) and len(a.test.ops) == 1 \
+                        and isinstance(a.test.left, ast.Call) and norm(a.test.left.func) == "len" \
+                        and isinstance(a.test.comparators[0], ast.Constant):
+                    c, op = a.test.comparators[0].value, type(a.test.ops[0])
+                    ok = ok or (op is ast.Gt and c >= 1) or (op is ast.GtE and c >= 2)
+            ctx.check(ok and ctx.pkg.canonical(u) == "heapq.merge", rid, u, n,
+                      "the holder is refilled (and its key computed) only while at least two sources are being merged",
+                      node=n)
 
 
 class _TruthOps:
